@@ -33,6 +33,7 @@ type Queue struct {
 	workItems        *sync.Map
 	queueContext     context.Context
 	queueCancel      context.CancelFunc
+	enqueueSeq       atomic.Uint64
 }
 
 // NewQueue returns a reference to an initialized Queue
@@ -80,6 +81,7 @@ func (w *Queue) Enqueue(workToDo Work, options ...workOption) uuid.UUID {
 		option(wi)
 	}
 
+	wi.seq = w.enqueueSeq.Add(1)
 	w.workItems.Store(wi.id, wi)
 
 	if !w.stopped.Load() {
